@@ -135,6 +135,9 @@ class SyncInterpreter(BaseInterpreter[TContext, TEvent]):
         self._after_events: Dict[str, threading.Event] = {}
         #: Cancellation flags for pending delayed sends, released by `stop()`.
         self._pending_send_cancels: Set[threading.Event] = set()
+        #: Events enqueued while a macrostep was being processed, i.e. raised
+        #: by the machine itself. Only these count towards `maxIterations`.
+        self._chained_sends: int = 0
 
         logger.info("✅ Synchronous Interpreter '%s' initialized. 🎉", self.id)
 
@@ -309,6 +312,8 @@ class SyncInterpreter(BaseInterpreter[TContext, TEvent]):
             return
 
         event_obj = self._prepare_event(event_or_type, **payload)
+        if self._is_processing:
+            self._chained_sends += 1
         self._event_queue.append(event_obj)
         self._process_event_queue()
 
@@ -344,7 +349,13 @@ class SyncInterpreter(BaseInterpreter[TContext, TEvent]):
         #    path, leaving this loop unbounded: `send()` never returned, with
         #    no timeout and no way to interrupt it. The same ceiling now
         #    applies to both paths.
-        processed = 0
+        #
+        # 🏛️ Count the SELF-RAISED chain, not queue traffic. Counting every
+        #    processed event also throttled legitimate callers:
+        #    `send_events()` with more than `maxIterations` events lost the
+        #    rest. `_chained_sends` only grows for events enqueued while a
+        #    macrostep is being processed, mirroring the async engine.
+        self._chained_sends = 0
         limit = getattr(self.machine, "max_iterations", 1000)
         try:
             while self._event_queue:
@@ -356,8 +367,7 @@ class SyncInterpreter(BaseInterpreter[TContext, TEvent]):
                 if self.status != "running":
                     self._event_queue.clear()
                     break
-                processed += 1
-                if processed > limit:
+                if self._chained_sends > limit:
                     logger.error(
                         "🛑 Exceeded %d queued events in a single macrostep on "
                         "'%s'. This usually means an action raises the event "
@@ -367,6 +377,7 @@ class SyncInterpreter(BaseInterpreter[TContext, TEvent]):
                         len(self._event_queue),
                     )
                     self._event_queue.clear()
+                    self._chained_sends = 0
                     break
 
                 current_event = self._event_queue.popleft()
